@@ -44,6 +44,7 @@ static bool impl_verify(const uint8_t *b, size_t n, int kind, int md, binson_err
     memset(&p, 0, sizeof p);
     p.state = ST; p.max_depth = (uint_fast8_t) md;
     vf_progress++;
+    vf_stack_paint();
     if (kind == VK_OBJ) (void) binson_parser_init_object(&p, b, n); else (void) binson_parser_init_array(&p, b, n);
     bool r = binson_parser_verify(&p);
     *err = p.error_flags;
